@@ -148,8 +148,18 @@ fn monitor(analyzed: &pipeline::Analyzed) -> (String, Option<String>) {
         return (class, Some(format!("panic {}", p.short())));
     }
     let Some(result) = &analyzed.result else { return (class, None) };
-    // render exactly as the CLI does (through a CommandCompiler over the same sources)
+    // render exactly as the CLI does. The renderer re-materialises the typed arena through its own compiler, which
+    // must see the same sources: only overlay roots under the virtual directory qualify here (a fresh compiler
+    // cannot read them, so typed observations are skipped); in-place overlays of repository files would be
+    // re-read from disk *without* the mutation and must not be rendered against this analysis.
+    let virtual_root = analyzed.root.starts_with("/zv-virtual");
     let rendered = catch(|| {
+        if !virtual_root {
+            if let Ok(analysis) = result {
+                DiagnosticRenderer::warnings(analysis);
+            }
+            return;
+        }
         let compiler = zydeco_cli::CommandCompiler::default();
         match result {
             | Ok(analysis) => {
